@@ -103,8 +103,8 @@ def _bases():
 _B = {}
 
 
-def make_base(alg, kind, enc, form, aad, which=0, plaintext=PLAINTEXT, cty="a"):
-    ck = (alg, kind, enc, form, aad, which, plaintext, cty)
+def make_base(alg, kind, enc, form, aad, which=0, plaintext=PLAINTEXT, cty="a", iv=None):
+    ck = (alg, kind, enc, form, aad, which, plaintext, cty, iv)
     if ck in _B:
         return _B[ck].clone()
     rand = rjwe.Drbg(repr(ck).encode())
@@ -124,7 +124,7 @@ def make_base(alg, kind, enc, form, aad, which=0, plaintext=PLAINTEXT, cty="a"):
                 break
         recs.append(r)
     prot = {"alg": alg, "enc": enc, "cty": cty}
-    wire = rjwe.encrypt(prot, plaintext, recs, aad=aad if form != "compact" else None, form=form, rand=rand,
+    wire = rjwe.encrypt(prot, plaintext, recs, aad=aad if form != "compact" else None, form=form, rand=rand, iv=iv,
                         param_pos="protected" if form != "general" else "recipient")
     _B[ck] = JTok(form, wire)
     return _B[ck].clone()
@@ -137,7 +137,7 @@ def leading_zero_base(alg, kind, enc, form, aad):
         found = None
         for i in range(20000):
             t = make_base(alg, kind, enc, form, aad, cty="lz%d" % i)
-            _B.pop((alg, kind, enc, form, aad, 0, PLAINTEXT, "lz%d" % i), None)
+            _B.pop((alg, kind, enc, form, aad, 0, PLAINTEXT, "lz%d" % i, None), None)
             if t.recipients[0]["ek"][:1] == b"\0":
                 found = t
                 break
@@ -167,7 +167,7 @@ def flip(data, bit):
 SEGS = ["protected", "encrypted_key", "iv", "ciphertext", "tag", "aad"]
 FAULTS = ["none"] + ["bitflip-" + s for s in SEGS] + ["respell-protected", "tag-length", "iv-length", "nonempty-encrypted-key",
                                                       "wrong-recipient-key", "wrong-sender-key", "epk-edit", "splice", "drop-encrypted-key", "boundary-shift",
-                                                      "encrypted-key-length", "unauthenticated-member"]
+                                                      "encrypted-key-length", "unauthenticated-member", "entry-for-an-unregistered-algorithm"]
 # a plaintext that is itself a raw DEFLATE stream (an application that encrypts blobs it compressed itself)
 import zlib as _zlib
 _c = _zlib.compressobj(9, _zlib.DEFLATED, -15)
@@ -222,9 +222,16 @@ def apply_fault(ctx, tok, fault, alg, kind, enc, form, aad, stride=1, tag=""):
     if fault in ("tag-length", "iv-length"):
         seg = "tag" if fault == "tag-length" else "iv"
         data = get_seg(tok, seg)
-        opts = [("truncate", n) for n in range(len(data))] + [("extend", k, v) for k in (1, 2, 3, 4) for v in (0, 255)]
+        opts = [("truncate", n) for n in range(len(data))] + [("extend", k, v) for k in (1, 2, 3, 4) for v in (0, 255)] + [("zero octets put in front", k) for k in (1, 4)]
+        if seg == "iv":
+            # a sender that uses a counter as nonce (RFC 8439 2.3, SP 800-38D 8.2.1): the IV begins with zero octets; they are part of it
+            opts += [("counter-style IV, its leading zero octets dropped", k) for k in (1, 2, 4)]
         o = ctx.choose(tag + "length-change", opts)
-        new = data[:o[1]] if o[0] == "truncate" else data + bytes([o[2]]) * o[1]
+        if o[0].startswith("counter-style"):
+            fresh = make_base(alg, kind, enc, form, aad, iv=b"\x00" * 4 + bytes(range(1, len(data) - 3)))
+            tok.__dict__.update(fresh.__dict__)
+            data = tok.iv
+        new = data[:o[1]] if o[0] == "truncate" else (data + bytes([o[2]]) * o[1] if o[0] == "extend" else (b"\x00" * o[1] + data if o[0].startswith("zero") else data[o[1]:]))
         set_seg(tok, seg, new)
         return f"{seg} {o}", over
     if fault == "boundary-shift":
@@ -266,6 +273,15 @@ def apply_fault(ctx, tok, fault, alg, kind, enc, form, aad, stride=1, tag=""):
             ridx = ctx.choose(tag + "recipient", range(len(tok.recipients))) if len(tok.recipients) > 1 else 0
             tok.recipients[ridx]["header"] = {**(tok.recipients[ridx]["header"] or {}), name: value}
         return f"{name}={value!r} planted in the {pos} header", over
+    if fault == "entry-for-an-unregistered-algorithm":
+        # a further entry whose alg this process has no model for (a draft, a misspelling): with every-recipient validation it cannot validate
+        if form != "general":
+            return None
+        name = ctx.choose(tag + "alg_of_the_entry", ["RSA-OAEP-384", "a128kw", "ECDH-SS", ""])
+        where = ctx.choose(tag + "entry_position", ["last", "first"])
+        entry = {"header": {"alg": name, "kid": "rcpt-0"}, "ek": bytes(range(40))}     # a kid the recipient has a key for, so that the entry is looked at
+        tok.recipients = tok.recipients + [entry] if where == "last" else [entry] + tok.recipients
+        return f"an entry naming the unregistered algorithm {name!r} added as the {where} one", over
     if fault == "nonempty-encrypted-key":
         if alg not in ("dir", "ECDH-ES", "ECDH-1PU"):
             return None
